@@ -2,7 +2,6 @@ package types
 
 import (
 	"fmt"
-	"strings"
 
 	"github.com/cosmos/cosmos-sdk/store/types"
 
@@ -119,9 +118,10 @@ func IterateConsensusStateAscending(clientStore sdk.KVStore,
 
 	for ; iterator.Valid(); iterator.Next() {
 		key := iterator.Key()
-		keySplit := strings.Split(string(key), "/")
-		// processed time key in prefix store has format: "consensusStates/<height>"
-		if len(keySplit) != 2 {
+		// consensus state key in prefix store has format: "consensusStates/<height>", where <height>
+		// is 16 raw big-endian bytes that may themselves contain the separator "/":
+		// recognise the key by its length instead of splitting on "/"
+		if len(key) != len(host.KeyConsensusStatePrefix)+1+16 {
 			// ignore all not consensus state keys
 			continue
 		}
